@@ -57,6 +57,7 @@ func runC03(o opts) error {
 			scns = append(scns, c03.EscSosPm(rng))
 		}
 		scns = append(scns, c03.TypeAheadEach()...)
+		scns = append(scns, c03.TypeAheadBehind()...)
 		for i := 0; i < 2*nk; i++ {
 			scns = append(scns, c03.TypeAhead(rng))
 		}
@@ -87,6 +88,7 @@ func runC03(o opts) error {
 		for _, a := range sc.Ahead { // input during start-up: the first events of the stream
 			all = append(all, a.Reports)
 		}
+		all = append(all, sc.Behind) // typed right behind the reply which ends start-up
 		for _, st := range sc.Steps {
 			all = append(all, st.Reports)
 		}
